@@ -18,7 +18,7 @@ from __future__ import annotations
 import random
 from typing import Any, Dict, List, Optional, Tuple
 
-from .e3_engine import Engine, Env, Violation, world_to_json, world_from_json
+from .e3_engine import Engine, Env, Violation, world_to_json, world_from_json, construct_violation
 from .refmodel import World
 
 PROP = "C09"
@@ -588,7 +588,13 @@ def draw_op(rng: random.Random, eng: C09Engine, weights: Dict[str, float]) -> Li
 
 def run_ops(env: Env, world_json: Dict[str, Any], ops: List[List[Any]]) -> Dict[str, Any]:
     """Pure replay: initial world + explicit op list -> result (no PRNG)."""
-    eng = C09Engine(env, world_from_json(world_json))
+    try:
+        eng = C09Engine(env, world_from_json(world_json))
+    except Exception as ex:
+        bad = construct_violation(PROP, ex, "api")
+        if bad is None:
+            raise
+        return bad
     res: Dict[str, Any] = {"violation": None}
     try:
         eng.check_state({"index": -1, "op": "initial"})
@@ -612,7 +618,13 @@ def generate(env: Env, rseed: int, thorough: bool) -> Tuple[Dict[str, Any], List
     saturated = g.random() < (0.4 if thorough else 0.25)
     world = gen_universe(stream(rseed, "universe"), saturated)
     wj = world_to_json(world)
-    eng = C09Engine(env, world)
+    try:
+        eng = C09Engine(env, world)
+    except Exception as ex:
+        bad = construct_violation(PROP, ex, "api")
+        if bad is None:
+            raise
+        return wj, [], bad
     nops = g.choice([3, 5, 8, 12, 20, 40] + ([80, 120] if thorough else []))
     weights = {k: v * g.choice([0, 0.5, 1, 1, 2, 4]) for k, v in OPW.items()}
     if not any(weights.values()):
